@@ -16,7 +16,7 @@ for d in sorted(glob.glob('/verif/seeded/C*/')):
 out = ["# Seeded changes and which checks catch them", "",
        "Every entry is a change to hohav/peppi written by a fresh sub-agent that was given only the property text and its own",
        "scratch worktree (four rounds of 20 agents x 2 changes: round 1, suffix A/B: statement + quantifier + why-tests-cannot; round 2, C/D:",
-       "plus the property's anchors and a request for subtler changes; round 3, E/F: changes of a different nature; round 4, G/H(/I) and round 5, J/K: plus the",
+       "plus the property's anchors and a request for subtler changes; round 3, E/F: changes of a different nature; round 4, G/H(/I), round 5, J/K and round 6, L/M: plus the",
        "list of ideas already used). Each was confirmed by `tools/verify_seed.sh` in a scratch worktree: the repository's 30 tests",
        "(+3 doctests) pass with the change, the sub-agent's demonstration fails with it and passes without it. The checks were run with",
        "`tools/try_seed.sh` (`git -C /repo apply`, `./check <id>`, `git -C /repo checkout -- .`). `patch.diff`, `demo.rs`, `notes.md`,",
@@ -31,7 +31,7 @@ for name, m in rows:
     det = m['detected_by']
     if det.startswith('MISSED'):
         missed += 1
-    mx = ", ".join(matrix.get(name, [])) if name in matrix else "(cross run made for the first 80 changes only)"
+    mx = ", ".join(matrix.get(name, [])) if name in matrix else "(cross run made for rounds 1-4 only)"
     pid = name.split('-')[0]
     fin = "reported" if pid in own.get(name, []) else ("patch no longer applies (see meta.json)" if name not in own else "NOT reported")
     out.append(f"| {name} | {m['what_it_needs_to_manifest']} | {det} | {fin} | {mx} |")
